@@ -102,21 +102,30 @@ def defuse(body):
 
 
 def const_expr(c):
+    """('const', value, ty) for literals; ('constdef', name, ty, value) for named constants."""
     if "fn" in c:
         return ('fn', norm(c["fn"]))
-    k = c.get("k")
-    if k == "int":
-        v = int(c["v"])
-        return ('const', v, c["ty"])
-    if "bytes" in c:
-        return ('const', bytes(c["bytes"]), c["ty"])
     if "promoted" in c:
         return ('promoted', c["promoted"], c.get("def"))
-    if k == "zst":
-        return ('const', None, c["ty"])
+    k = c.get("k")
+    v = None
+    if k == "int":
+        v = int(c["v"])
+    elif "bytes" in c:
+        v = bytes(c["bytes"])
     if "def" in c:
-        return ('constdef', norm(c["def"]), c["ty"])
-    return ('const', None, c["ty"])
+        return ('constdef', norm(c["def"]), c["ty"], v)
+    return ('const', v, c["ty"])
+
+
+def const_value(e):
+    """Value of a literal or named constant expression (int / bytes), else None."""
+    e = peel(e, casts=False)
+    if e[0] == 'const':
+        return e[1]
+    if e[0] == 'constdef':
+        return e[3]
+    return None
 
 
 class Resolver:
@@ -318,6 +327,44 @@ def peel(e, casts=True):
             return e
 
 
+def simplify(e):
+    """Fold projections out of known aggregates: (agg{..} as V).k -> field k."""
+    k = e[0]
+    if k == 'field':
+        b = simplify(e[1])
+        inner = b
+        if inner[0] == 'variant':
+            inner2 = inner[1]
+            if inner2[0] == 'agg' and inner2[1] == 'adt' and inner2[2].endswith("::" + str(inner[2])):
+                for (n, x) in inner2[3]:
+                    if n == e[2]:
+                        return x
+        if inner[0] == 'agg':
+            for (n, x) in inner[3]:
+                if n == e[2]:
+                    return x
+        return (k, b, e[2])
+    if k == 'variant':
+        return (k, simplify(e[1]), e[2])
+    if k in ('ref', 'deref', 'discr'):
+        return (k, simplify(e[1]))
+    if k == 'call':
+        return (k, e[1], tuple(simplify(a) for a in e[2]), e[3])
+    if k == 'bin':
+        return (k, e[1], simplify(e[2]), simplify(e[3]))
+    if k == 'un':
+        return (k, e[1], simplify(e[2]))
+    if k == 'cast':
+        return (k, e[1], simplify(e[2]), e[3])
+    if k == 'agg':
+        return (k, e[1], e[2], tuple((n, simplify(x)) for n, x in e[3]))
+    if k == 'phi':
+        return (k, tuple(simplify(x) for x in e[1]))
+    if k == 'index':
+        return (k, simplify(e[1]), simplify(e[2]) if isinstance(e[2], tuple) else e[2])
+    return e
+
+
 def walk(e):
     """All sub-expressions, pre-order."""
     yield e
@@ -378,7 +425,7 @@ def show(e, depth=0):
     if k == 'fn':
         return "fn " + e[1]
     if k == 'constdef':
-        return e[1]
+        return e[1].split("::", 1)[-1] if e[1].count("::") > 2 else e[1]
     if k == 'promoted':
         return "promoted#%s" % e[1]
     if k == 'field':
